@@ -185,6 +185,19 @@ def main():
     ptmod.h5py = H5Proxy(real, rec)
     import warnings
     warnings.simplefilter("ignore")
+    fail_step = int(os.environ.get("VERIF_FAIL_STEP", "0") or 0)
+    if fail_step:
+        # the writer is interrupted between file operations: in the fail_step-th propagation step of PT-TEMPO
+        from oqupy.backends import pt_tempo_backend as ptb
+        real_step = ptb.PtTempoBackend.compute_step
+        calls = [0]
+
+        def compute_step(self, *a, **kw):
+            calls[0] += 1
+            if calls[0] == fail_step:
+                raise KeyboardInterrupt("injected in propagation step %d" % fail_step)
+            return real_step(self, *a, **kw)
+        ptb.PtTempoBackend.compute_step = compute_step
     try:
         scenario(scen, path)
     except KeyboardInterrupt:
